@@ -45,7 +45,10 @@ C08_OK ==
           cause == IF EvOf(c) = "CtxCancel" THEN "CtxCanceled" ELSE "ExecCanceled"
           startsAfter == {i \in Idx : i > r /\ EvOf(i) = "FnStart" /\ OfX(i, x)}
           \* the execution was demonstrably still running after the cancellation took effect
-          stillRunning == \E i \in Idx : i > r /\ i < First(returns) /\ OfX(i, x) /\ EvOf(i) \in {"FnStart", "FnEnd", "OnRetryScheduled", "OnRetry", "OnHedge"}
+          \* (under a hedge policy losing attempts keep running after a result was accepted: only policy-level progress counts there)
+          stillRunning == \E i \in Idx : i > r /\ i < First(returns) /\ OfX(i, x) /\
+                             EvOf(i) \in (IF HasStack("hg") THEN {"OnRetryScheduled", "OnRetry", "OnHedge"}
+                                          ELSE {"FnStart", "FnEnd", "OnRetryScheduled", "OnRetry"})
           allCoop == \A k \in 1..Len(cfg.fns[x]) : cfg.fns[x][k].coop \/ cfg.fns[x][k].d = 0
       IN /\ (stillRunning => R.e.op = cause)                                       \* Attribution
          /\ (~HasStack("hg") => Cardinality(startsAfter) <= 1)                      \* AtMostOneMoreAttempt
